@@ -414,11 +414,16 @@ static void DecodeAdr(tStrComp* pArg, Word Mask) {
             tStrComp RegArg;
 
             StrCompRefRight(&RegArg, &Arg, 1);
-            if (DecodeReg(&RegArg, &AdrByte, True) == eIsReg) {
+            switch (DecodeReg(&RegArg, &AdrByte, False)) {
+            case eIsReg:
                 AdrMode = ModPredec;
                 AdrByte |= 0xb0;
                 ChkAdr(Mask);
                 return;
+            case eRegAbort:
+                return;
+            default:
+                break;
             }
         }
 
